@@ -16,6 +16,8 @@ limitations under the License.
 
 #include "libcellml/printer.h"
 
+#include <iomanip>
+#include <limits>
 #include <list>
 #include <map>
 #include <regex>
@@ -234,6 +236,32 @@ void buildMaps(const ComponentEntityPtr &componentEntity, ComponentMap &componen
     }
 }
 
+/**
+ * @brief Convert a real attribute value to the string that is to be written.
+ *
+ * Use the usual string representation of @p value, unless reading it back would
+ * not give @p value again, in which case use as many significant digits as needed.
+ */
+static std::string convertRealToString(double value)
+{
+    auto res = convertToString(value);
+    double readBack = 0.0;
+
+    if (!convertToDouble(res, readBack) || (readBack != value)) {
+        for (int precision = std::numeric_limits<double>::digits10 + 1; precision <= std::numeric_limits<double>::max_digits10; ++precision) {
+            std::ostringstream strs;
+
+            strs << std::setprecision(precision) << value;
+
+            if (convertToDouble(strs.str(), readBack) && (readBack == value)) {
+                return strs.str();
+            }
+        }
+    }
+
+    return res;
+}
+
 std::string Printer::PrinterImpl::printUnits(const UnitsPtr &units, IdList &idList, bool autoIds)
 {
     std::string repr;
@@ -261,10 +289,10 @@ std::string Printer::PrinterImpl::printUnits(const UnitsPtr &units, IdList &idLi
                 units->unitAttributes(i, reference, prefix, exponent, multiplier, id);
                 repr += "<unit";
                 if (exponent != 1.0) {
-                    repr += " exponent=\"" + convertToString(exponent) + "\"";
+                    repr += " exponent=\"" + convertRealToString(exponent) + "\"";
                 }
                 if (multiplier != 1.0) {
-                    repr += " multiplier=\"" + convertToString(multiplier) + "\"";
+                    repr += " multiplier=\"" + convertRealToString(multiplier) + "\"";
                 }
                 if (!prefix.empty()) {
                     repr += " prefix=\"" + escapeAttribute(prefix) + "\"";
